@@ -1,5 +1,7 @@
 import GraafVerif.Proof.Fw
 import GraafVerif.Proof.FwDesc
+import GraafVerif.Proof.FwTwice
+import GraafVerif.Proof.FwFast
 /-!
 # C08 — Floyd-Warshall returns the exact all-pairs matrix
 
@@ -181,6 +183,29 @@ theorem fw_desc_hyps (n : Nat) (arcs : List (Nat × Nat × Int)) (harcs : ∀ a 
     (WGraph.ofRows (wrowsOfArcs n arcs)).Functional :=
   ofRows_hyps n arcs harcs
 
+/-- State carried between calls: `distances()` keeps its matrix in the object and does not
+re-initialise it; a SECOND call on the same object (`distances2`: arc cells and diagonal
+overwritten, triple loop re-run on the previous result) returns exactly the same matrix.
+`call g (distances g) = distances g` is a fixed point, so every later call does too; the
+statement above therefore holds of every call. -/
+theorem fw_twice (g : WGraph) (hwf : g.WF) (hfun : g.Functional) (hnc : g.NoNegCycle) :
+    distances2 g = distances g :=
+  distances2_eq hwf hfun hnc
+
+/-- Any call on an object whose matrix holds walk weights (e.g. after any number of earlier
+calls) yields the matrix of minima. -/
+theorem fw_call_again (g : WGraph) (hwf : g.WF) (hfun : g.Functional) (hnc : g.NoNegCycle)
+    (m : Mat) (hm : InvK g g.n m) : call g m = distances g :=
+  have h1 := distances_inv hwf hfun hnc
+  have h2 := call_inv hwf hfun hnc hm
+  mat_ext h2.1.1 h1.1.1 (fun _ _ hu hv => h2.get_eq h1 hu hv)
+
+/-- The compiled driver runs an `Array` twin of the model (`Model/FwFast.lean`); it computes the
+same lists, for every digraph (no hypotheses). -/
+theorem fw_fast_eq (g : WGraph) :
+    (distancesA g).toList = distances g ∧ (distances2A g).toList = distances2 g :=
+  ⟨distancesA_toList g, distances2A_toList g⟩
+
 /-- `run` is `distances` on every digraph with at least one vertex (order 0 panics in
 `DistanceMatrix::new`). -/
 theorem fw_run_ok (g : WGraph) (hn : 0 < g.n) : run g = .ok (distances g) := by
@@ -232,6 +257,10 @@ example : distances ex =
      some 4, some 0, some 2, some 4,
      some 5, some 1, some 0, some 2,
      some 3, some (-1), some 1, some 0] := by decide
+
+set_option maxRecDepth 10000 in
+/-- Second call on the doctest digraph, evaluated. -/
+example : distances2 ex = distances ex := by decide
 
 /-- An unreachable pair yields `none`. -/
 example : get 2 (distances ⟨2, fun u => if u = 0 then [(1, 5)] else []⟩) 1 0 = none := by decide
